@@ -86,13 +86,13 @@ def decode_fn_for(d, grp, dfns):
     return dfns.get("decode_pgn_" + PL.func_suffix(d, grp[d["PGN"]]))
 
 
-def mutate_message(msg, d, rng):
+def mutate_message(msg, d, rng, force=None):
     """C09 value classes applied to one field of a decoded message: returns [(label, message)]"""
     out = []
     idxs = [i for i, f in enumerate(d["Fields"]) if "Match" not in f]
     if not idxs:
         return out
-    i = rng.choice(idxs)
+    i = rng.choice(idxs) if force is None else force
     f = d["Fields"][i]
     t = f["FieldType"]
     n = f["BitLength"]
@@ -524,6 +524,67 @@ def c09_locality(d, msg, rng, enc):
     return None
 
 
+def c09_reuse(d, msg, rng, enc):
+    """ONE message object edited between two encodings (a field object replaced / a field removed, the number of
+    fields kept or not): the second encoding must be what a freshly built message with those fields encodes to —
+    a replaced value is written, a field that is gone makes the encoder refuse"""
+    from nmea2000.message import NMEA2000Field
+    idxs = [i for i, f in enumerate(d["Fields"]) if f["FieldType"] in ("NUMBER", "LOOKUP", "RESERVED") and "Match" not in f]
+    if not idxs:
+        return None
+    i = rng.choice(idxs)
+    f = d["Fields"][i]
+    n = f["BitLength"]
+
+    def pay(m):
+        try:
+            return ("ok", _payload_of_actisense(enc.encode_actisense(m)))
+        except Exception as e:  # noqa: BLE001
+            return ("err", type(e).__name__)
+    from nmea2000.message import NMEA2000Message
+
+    def rebuilt(x):
+        """a NEW message object carrying the same header and the same field objects (no hidden per-object state)"""
+        y = NMEA2000Message(PGN=x.PGN, id=x.id, description=getattr(x, "description", None), source=x.source,
+                            destination=x.destination, priority=x.priority)
+        y.fields = list(x.fields)
+        return y
+    m = copy.deepcopy(msg)
+    first = pay(m)
+    if first[0] != "ok":
+        return None
+    old = m.fields[i]
+    kw = {k: getattr(old, k) for k in ("id", "name", "description", "unit_of_measurement", "value", "raw_value",
+                                        "physical_quantities", "type", "part_of_primary_key") if hasattr(old, k)}
+    if f["FieldType"] == "NUMBER":
+        lo, hi = PL.raw_range(f)
+        if lo > hi:
+            return None
+        v = rng.randint(lo, hi) * (float(f["Resolution"]) if not isinstance(f["Resolution"], int) else f["Resolution"])
+        kw["value"] = kw["raw_value"] = v
+    elif f["FieldType"] == "LOOKUP":
+        kw["raw_value"] = rng.getrandbits(n)
+    else:
+        kw["value"] = kw["raw_value"] = rng.getrandbits(n)
+    try:
+        m.fields[i] = NMEA2000Field(**kw)              # same number of fields, another object
+    except Exception:  # noqa: BLE001
+        return None
+    second, fresh = pay(m), pay(rebuilt(m))
+    if second != fresh:
+        return {"kind": "reuse", "pgn": d["PGN"], "id": d["Id"], "key": "encode:stale-after-edit",
+                "what": f"PGN {d['PGN']} {d['Id']}: after field {f['Id']} of an already encoded message was replaced, the same object "
+                        f"encodes to {second[1].hex() if second[0] == 'ok' else second}, a fresh copy of it to "
+                        f"{fresh[1].hex() if fresh[0] == 'ok' else fresh}"}
+    m.fields = [x for k, x in enumerate(m.fields) if k != i] + []
+    gone, fresh2 = pay(m), pay(rebuilt(m))
+    if gone[0] == "ok":
+        return {"kind": "reuse", "pgn": d["PGN"], "id": d["Id"], "key": "encode:missing-field-accepted-after-edit",
+                "what": f"PGN {d['PGN']} {d['Id']}: field {f['Id']} removed from an already encoded message, yet it is encoded "
+                        f"({gone[1].hex()}); a fresh copy gives {fresh2}"}
+    return None
+
+
 def c09_search(ctx):
     from nmea2000.decoder import NMEA2000Decoder
     from nmea2000.encoder import NMEA2000Encoder
@@ -550,12 +611,20 @@ def c09_search(ctx):
         msgs = [("decoded", base)]
         for _ in range(ctx.n(2, 8)):
             msgs += mutate_message(base, d, rng)
+        # fields wider than 53 bits (the double cannot hold every raw value): always exercised, at every boundary class
+        for wi, wf in enumerate(d["Fields"]):
+            if wf.get("BitLength", 0) > 53 and "Match" not in wf and wf["FieldType"] in ("NUMBER", "TIME", "DURATION"):
+                msgs += mutate_message(base, d, rng, force=wi)
         for label, m in msgs:
             w = c09_check(d, m, label, dec, enc)
             if w and w["key"] not in seen:
                 seen.add(w["key"])
                 out.append(w)
         w = c09_locality(d, base, rng, enc)
+        if w and w["key"] not in seen:
+            seen.add(w["key"])
+            out.append(w)
+        w = c09_reuse(d, base, rng, enc)
         if w and w["key"] not in seen:
             seen.add(w["key"])
             out.append(w)
@@ -568,6 +637,24 @@ def c09_replay(ctx, data):
     from nmea2000.message import NMEA2000Message, NMEA2000Field
     w = data.get("witness", data)
     d = next((x for x in PL.definitions() if x["PGN"] == w["pgn"] and x["Id"] == w["id"]), None)
+    if d is not None and w.get("kind") in ("reuse", "locality"):
+        import random
+        dec, enc = NMEA2000Decoder(), NMEA2000Encoder()
+        fn = c09_reuse if w["kind"] == "reuse" else c09_locality
+        for sd in range(40):
+            rng = random.Random(sd)
+            try:
+                base = _decode(dec, d, PL.compose(d, rng))
+            except Exception:  # noqa: BLE001
+                base = None
+            if base is None or base.id != d["Id"]:
+                continue
+            r = fn(d, base, rng, enc)
+            if r:
+                print("observed:", r["what"])
+                return True
+        print("observed: property holds on this definition (40 re-runs of the scenario)")
+        return False
     if d is None or w.get("kind") != "encode":
         return True
     m = NMEA2000Message(PGN=d["PGN"], id=d["Id"], priority=3, source=7, destination=255)
